@@ -1417,6 +1417,19 @@ func (nz *normaliser) expandBody(h *helper, call *ast.CallExpr, lhs []ast.Expr, 
 		nzWhy(h, "bindings not supported at %s", nz.p.Fset.Position(call.Pos()))
 		return nil
 	}
+	// operands that were synthesised in this round have no type information yet: wait for the next round
+	for _, b := range bs {
+		fresh := false
+		ast.Inspect(b.arg, func(n ast.Node) bool {
+			if id, ok := n.(*ast.Ident); ok && info.Uses[id] == nil && info.Defs[id] == nil && id.Name != "_" && id.Name != "nil" && id.Name != "true" && id.Name != "false" {
+				fresh = true
+			}
+			return true
+		})
+		if fresh {
+			return nil
+		}
+	}
 	if !nz.freeOK(h, h.decl.Body, nz.pk, nz.file, call.Pos()) {
 		nzWhy(h, "free identifier means something else at %s", nz.p.Fset.Position(call.Pos()))
 		return nil
